@@ -62,3 +62,65 @@ Theorem C14_name_fn_argument : forall D has_ns hcode rm rn rr f a c l, is_name_f
   Val (VStr match l with nil => "" | i :: _ => name_fn D has_ns f (it_node i) end).
 Proof. exact eval_name_fn_arg. Qed.
 Print Assumptions C14_name_fn_argument.
+
+(* ------------------------------------------------------------------ *)
+(* END TO END, from the TEXT of one-step name tests and of the name functions. *)
+From XP Require Import Build Api.
+From XP.Proofs Require Import ScanTokens EndToEndName.
+Open Scope string_scope.
+
+Theorem C14_end_to_end_qname_lexical : forall D has_ns hc rm rn rr re_ok pfx nm c,
+  name_ok pfx = true -> name_ok nm = true ->
+  exists q l, compile re_ok ("child::" ++ pfx ++ ":" ++ nm) None = Ok q /\
+    select rm rn rr hc D has_ns q c = Val l /\
+    forall n, In n l <-> In n (children D c) /\ node_type D n = NTElem /\
+                         local_name D n = nm /\ node_prefix D n = pfx.
+Proof. exact C14_child_qname_nomap. Qed.
+Print Assumptions C14_end_to_end_qname_lexical.
+
+Theorem C14_end_to_end_qname_bound : forall D has_ns hc rm rn rr re_ok m pfx nm uri c,
+  name_ok pfx = true -> name_ok nm = true -> ns_lookup m pfx = Some uri ->
+  exists q l, compile re_ok ("child::" ++ pfx ++ ":" ++ nm) (Some m) = Ok q /\
+    select rm rn rr hc D has_ns q c = Val l /\
+    forall n, In n l <-> In n (children D c) /\ node_type D n = NTElem /\ local_name D n = nm /\
+                         (if has_ns then node_ns D n = uri else node_prefix D n = pfx).
+Proof. exact C14_child_qname_bound. Qed.
+Print Assumptions C14_end_to_end_qname_bound.
+
+Theorem C14_end_to_end_qname_unbound : forall re_ok m pfx nm,
+  name_ok pfx = true -> name_ok nm = true -> ns_lookup m pfx = None ->
+  compile re_ok ("child::" ++ pfx ++ ":" ++ nm) (Some m) = Err "prefix not defined.".
+Proof. exact C14_child_qname_unbound. Qed.
+Print Assumptions C14_end_to_end_qname_unbound.
+
+Theorem C14_end_to_end_name : forall D has_ns hc rm rn rr re_ok ns nm c,
+  name_ok nm = true ->
+  exists q l, compile re_ok ("child::" ++ nm) ns = Ok q /\
+    select rm rn rr hc D has_ns q c = Val l /\
+    forall n, In n l <-> In n (children D c) /\ node_type D n = NTElem /\
+                         local_name D n = nm /\ node_prefix D n = "".
+Proof. exact C14_child_name. Qed.
+Print Assumptions C14_end_to_end_name.
+
+Theorem C14_end_to_end_star : forall D has_ns hc rm rn rr re_ok ns c,
+  exists q l, compile re_ok "child::*" ns = Ok q /\
+    select rm rn rr hc D has_ns q c = Val l /\
+    forall n, In n l <-> In n (children D c) /\ node_type D n = NTElem.
+Proof. exact C14_child_star. Qed.
+Print Assumptions C14_end_to_end_star.
+
+Theorem C14_end_to_end_attribute : forall D has_ns hc rm rn rr re_ok ns nm c,
+  name_ok nm = true ->
+  exists q l, compile re_ok ("attribute::" ++ nm) ns = Ok q /\
+    select rm rn rr hc D has_ns q c = Val l /\
+    forall n, In n l <-> node_type D c = NTElem /\ In n (attributes_after D c) /\
+                         node_type D n = NTAttr /\ local_name D n = nm /\ node_prefix D n = "".
+Proof. exact C14_attribute_name. Qed.
+Print Assumptions C14_end_to_end_attribute.
+
+Theorem C14_end_to_end_name_functions : forall D has_ns hc rm rn rr re_ok ns f c,
+  is_name_fn f ->
+  exists q, compile re_ok (fn_text f) ns = Ok q /\
+            evaluate rm rn rr hc D has_ns q c = Val (VStr (name_fn D has_ns f c)).
+Proof. exact C14_name_functions. Qed.
+Print Assumptions C14_end_to_end_name_functions.
